@@ -90,7 +90,7 @@ def program(kind, ops, mode="data"):
     elif mode == "computed":
         # x * 1.0 is x for every double (IEEE), n .+ 0 is n for every int64: the operand keeps its value and
         # type but is now the output of a computation, held in a local / an oosvar / a map element
-        lines.append("m = {};")
+        lines.append("m = {}; a = 0;")             # declared here: a first assignment inside if {} would be block-local
         for n in FIELDS[kind]:
             lv = COMPUTED_NAMES[n]
             lines.append(f"if (is_string(${n})) {{ {lv} = float(${n}) }} elif (is_float(${n})) {{ {lv} = ${n} * 1.0 }} "
